@@ -10,6 +10,14 @@ from .utilities import int_range
 #   General data structures for describing meshes
 
 
+def _check_mesh_nargs(args, dim):
+    """Raise TypeError unless the number of constructor arguments is that of
+    one of the documented forms: `dim` face-location arrays, or `dim` cell 
+    counts followed by `dim` domain lengths."""
+    if len(args) not in (dim, 2*dim):
+        raise TypeError(f'Incorrect number of arguments for creation of {dim}D mesh structure.')
+
+
 class CellProp:
     def __init__(self, _x: np.ndarray, _y: np.ndarray, _z: np.ndarray,
                  coordlabels: dict):
@@ -268,10 +276,11 @@ class Grid1D(MeshStructure):
         ...
     
     def __init__(self, *args):
-        if (len(args)==6):
+        if (len(args)==6) and isinstance(args[0], np.ndarray):
             dims, cell_size, cell_location, face_location, corners, edges\
                 = args
         else:
+            _check_mesh_nargs(args, 1)
             dims, cell_size, cell_location, face_location, corners, edges\
                 = self._mesh_1d_param(*args)
         super().__init__(dims, cell_size, cell_location,
@@ -390,10 +399,11 @@ class CylindricalGrid1D(Grid1D):
         ...
 
     def __init__(self, *args):
-        if (len(args)==6):
+        if (len(args)==6) and isinstance(args[0], np.ndarray):
             dims, cell_size, cell_location, face_location, corners, edges\
                 = args
         else:
+            _check_mesh_nargs(args, 1)
             dims, cell_size, cell_location, face_location, corners, edges\
                 = self._mesh_1d_param(*args, coordlabels={'r':'_x'})
         super().__init__(dims, cell_size, cell_location,
@@ -465,10 +475,11 @@ class SphericalGrid1D(Grid1D):
         ...
 
     def __init__(self, *args):
-        if (len(args)==6):
+        if (len(args)==6) and isinstance(args[0], np.ndarray):
             dims, cell_size, cell_location, face_location, corners, edges\
                 = args
         else:
+            _check_mesh_nargs(args, 1)
             dims, cell_size, cell_location, face_location, corners, edges\
                 = self._mesh_1d_param(*args, coordlabels={'r':'_x'})
         super().__init__(dims, cell_size, cell_location,
@@ -554,10 +565,11 @@ class Grid2D(MeshStructure):
 
     def __init__(self, *args):
 
-        if (len(args)==6):
+        if (len(args)==6) and isinstance(args[0], np.ndarray):
             dims, cell_size, cell_location, face_location, corners, edges\
                 = args
         else:
+            _check_mesh_nargs(args, 2)
             dims, cell_size, cell_location, face_location, corners, edges\
                 = self._mesh_2d_param(*args)
         super().__init__(dims, cell_size, cell_location,
@@ -703,10 +715,11 @@ class CylindricalGrid2D(Grid2D):
 
     def __init__(self, *args):
 
-        if (len(args)==6):
+        if (len(args)==6) and isinstance(args[0], np.ndarray):
             dims, cell_size, cell_location, face_location, corners, edges\
                 = args
         else:
+            _check_mesh_nargs(args, 2)
             dims, cell_size, cell_location, face_location, corners, edges\
                 = self._mesh_2d_param(*args, coordlabels={'r':'_x',
                                                           'z':'_y'})
@@ -787,10 +800,11 @@ class PolarGrid2D(Grid2D):
 
 
     def __init__(self, *args):
-        if (len(args)==6):
+        if (len(args)==6) and isinstance(args[0], np.ndarray):
             dims, cell_size, cell_location,\
                   face_location, corners, edges= args
         else:
+            _check_mesh_nargs(args, 2)
             if len(args) == 2:
                 theta_max = args[1][-1]
             else:
@@ -909,6 +923,7 @@ class Grid3D(MeshStructure):
             dims, cell_size, cell_location, face_location, corners, edges\
                 = args
         else:
+            _check_mesh_nargs(args, 3)
             dims, cell_size, cell_location, face_location, corners, edges\
                 = self._mesh_3d_param(*args)
         super().__init__(dims, cell_size, cell_location,
@@ -1087,6 +1102,7 @@ class CylindricalGrid3D(Grid3D):
             dims, cell_size, cell_location, face_location, corners, edges\
                 = args
         else:
+            _check_mesh_nargs(args, 3)
             if len(args) == 3:
                 theta_max = args[1][-1]
             else:
@@ -1207,6 +1223,7 @@ class SphericalGrid3D(Grid3D):
             dims, cell_size, cell_location, face_location, corners, edges\
                 = args
         else:
+            _check_mesh_nargs(args, 3)
             if len(args) == 3:
                 theta_max = args[1][-1]
                 phi_max = args[2][-1]
